@@ -100,12 +100,12 @@ def load(R):
 
     # ---------------------------------------------------------------- StorageBackendBase
     B = "storage_base:StorageBackendBase."
-    R.contract(B + "is_memoized", prop="C05", types={"self": BE, "fn_reference": FR, "arg_hash": TStr}, returns=TBool,
+    R.contract(B + "is_memoized", prop="C05", modifies=["self._memory_cache.lru_deque"], types={"self": BE, "fn_reference": FR, "arg_hash": TStr}, returns=TBool,
                requires=["COH(self)"],
                ensures=["COH(self)", "STORE_SAME(self)",
                         "result == (FKEY(fn_reference, arg_hash) in self._metadata_source.mementos)"])
 
-    R.contract(B + "memoize", prop="C05", types={"self": BE, "key_override": TOpt(TStr), "memento": M, "result": TObj()},
+    R.contract(B + "memoize", prop="C05", modifies=["self._memory_cache.cache", "self._memory_cache.lru_deque", "self._memory_cache.memory_usage", "self._memory_cache.refs", "self._data_source.values", "self._data_source.writes", "self._metadata_source.mementos", "self._metadata_source.writes", "heap:content_key"], types={"self": BE, "key_override": TOpt(TStr), "memento": M, "result": TObj()},
                requires=["COH(self)", "STORE_OK(self)",
                          # caller invariant (runner): the recorded result type describes the value
                          "implies(same(memento.invocation_metadata.result_type, ResultType.null), result is None)"],
@@ -130,38 +130,38 @@ def load(R):
     R.spec("CACHE_SAME", ["b"], "implies(b._memory_cache is not None, UNCHANGED(b._memory_cache) and forall(str, lambda k: (k in b._memory_cache.refs) == old(k in b._memory_cache.refs) and same(b._memory_cache.refs[k], old(b._memory_cache.refs[k]))))")
     RO = {"ValueError": ["[C05,C19] self.read_only", "[C19] STORE_SAME(self)", "[C19] CACHE_SAME(self)"]}
 
-    R.contract(B + "read_result", prop="C05", types={"self": BE, "memento": M}, returns=TObj(),
+    R.contract(B + "read_result", prop="C05", modifies=["self._memory_cache.cache", "self._memory_cache.lru_deque", "self._memory_cache.memory_usage", "self._memory_cache.refs"], types={"self": BE, "memento": M}, returns=TObj(),
                requires=["COH(self)", "STORE_OK(self)", "CURRENT(self, memento)"],
                ensures=["COH(self)", "STORE_SAME(self)", "EQV(ret, STORED_VALUE(self, memento))"],
                raises={"OSError+": ["False"]})
 
-    R.contract(B + "forget_call", prop="C05", types={"self": BE, "fn_with_arg_hash": FWH},
+    R.contract(B + "forget_call", prop="C05", modifies=["self._memory_cache.cache", "self._memory_cache.lru_deque", "self._memory_cache.memory_usage", "self._memory_cache.refs", "self._metadata_source.mementos", "self._metadata_source.writes", "self._metadata_source.meta", "self._metadata_source.meta_with_data"], types={"self": BE, "fn_with_arg_hash": FWH},
                requires=["COH(self)"],
                ensures=["not self.read_only", "COH(self)", "DS_SAME(self)", "HK(fn_with_arg_hash) not in self._metadata_source.mementos",
                         "forall(str, lambda k: implies(k != HK(fn_with_arg_hash), (k in self._metadata_source.mementos) == old(k in self._metadata_source.mementos) and same(self._metadata_source.mementos[k], old(self._metadata_source.mementos[k]))))"],
                raises=RO)
 
-    R.contract(B + "forget_everything", prop="C05", types={"self": BE},
+    R.contract(B + "forget_everything", prop="C05", modifies=["self._memory_cache.cache", "self._memory_cache.lru_deque", "self._memory_cache.memory_usage", "self._memory_cache.refs", "self._metadata_source.mementos", "self._metadata_source.writes", "self._metadata_source.meta", "self._metadata_source.meta_with_data"], types={"self": BE},
                requires=["COH(self)"],
                ensures=["not self.read_only", "COH(self)", "DS_SAME(self)", "forall(str, lambda k: k not in self._metadata_source.mementos)",
                         "implies(self._memory_cache is not None, self._memory_cache.memory_usage == 0)"],
                raises=RO)
 
-    R.contract(B + "forget_function", prop="C05", types={"self": BE, "fn_reference": FR},
+    R.contract(B + "forget_function", prop="C05", modifies=["self._memory_cache.cache", "self._memory_cache.lru_deque", "self._memory_cache.memory_usage", "self._memory_cache.refs", "self._metadata_source.mementos", "self._metadata_source.writes", "self._metadata_source.meta", "self._metadata_source.meta_with_data"], types={"self": BE, "fn_reference": FR},
                requires=["COH(self)"],
                ensures=["not self.read_only", "COH(self)", "DS_SAME(self)",
                         "forall(str, lambda k: (k in self._metadata_source.mementos) == (old(k in self._metadata_source.mementos) and not k.startswith(fn_reference.qualified_name + '/')) "
                         "and same(self._metadata_source.mementos[k], old(self._metadata_source.mementos[k])))"],
                raises=RO)
 
-    R.contract(B + "is_all_memoized", prop="C05", types={"self": BE, "fns": TList(FWA)}, returns=TBool,
+    R.contract(B + "is_all_memoized", prop="C05", modifies=["self._memory_cache.lru_deque"], types={"self": BE, "fns": TList(FWA)}, returns=TBool,
                requires=["COH(self)"],
                ensures=["COH(self)", "STORE_SAME(self)",
                         "result == forall(int, lambda j: implies(0 <= j and j < len(fns), FKEY(fns[j].fn_reference, fns[j].arg_hash) in self._metadata_source.mementos))"],
                loops={1: ["len(comp_result) == loop_i", "forall(int, lambda j: implies(0 <= j and j < loop_i, same(comp_result[j].fn_reference, fns[j].fn_reference) and comp_result[j].arg_hash == fns[j].arg_hash))"]},
                labels={"comp_types": {1: TObj("nn:FunctionReferenceWithArgHash")}})
 
-    R.contract(B + "get_mementos", prop="C05", types={"self": BE, "fns": TList(FWH)}, returns=TList(TObj("Memento")),
+    R.contract(B + "get_mementos", prop="C05", modifies=["self._memory_cache.cache", "self._memory_cache.lru_deque", "self._memory_cache.memory_usage", "self._memory_cache.refs"], types={"self": BE, "fns": TList(FWH)}, returns=TList(TObj("Memento")),
                requires=["COH(self)", "STORE_OK(self)"],
                ensures=["COH(self)", "STORE_SAME(self)", "len(result) == len(fns)",
                         "forall(int, lambda j: implies(0 <= j and j < len(fns), same(result[j], self._metadata_source.mementos[HK(fns[j])] if HK(fns[j]) in self._metadata_source.mementos else None)))"],
@@ -192,7 +192,7 @@ def load(R):
     R.contract(D + "input_metadata", assumed=True, types={"self": DS, "content_key": TOpt(VKey), "metadata_key": TStr}, returns=TObj(),
                raises={"OSError+": []}, ensures=["implies(content_key is not None, same(result, self.meta[content_key.key + '#' + content_key.version + '|' + metadata_key]))"])
 
-    R.contract(B + "write_metadata", prop="C05", types={"self": BE, "fn_with_arg_hash": FWH, "key": TStr, "value": TObj(), "store_with_content_key": TOpt(VKey)},
+    R.contract(B + "write_metadata", prop="C05", modifies=["self._data_source.writes", "self._data_source.meta", "self._metadata_source.writes", "self._metadata_source.meta", "self._metadata_source.meta_with_data"], types={"self": BE, "fn_with_arg_hash": FWH, "key": TStr, "value": TObj(), "store_with_content_key": TOpt(VKey)},
                requires=["COH(self)"],
                ensures=["not self.read_only", "COH(self)",
                         "forall(str, lambda k: (k in self._metadata_source.mementos) == old(k in self._metadata_source.mementos) and same(self._metadata_source.mementos[k], old(self._metadata_source.mementos[k])))",
@@ -205,7 +205,7 @@ def load(R):
                                       "[C19] forall(str, lambda k: (k in self._metadata_source.meta) == old(k in self._metadata_source.meta) and same(self._metadata_source.meta[k], old(self._metadata_source.meta[k])))"],
                        "OSError+": ["not self.read_only"]})
 
-    R.contract(B + "read_metadata", prop="C05", types={"self": BE, "fn_with_arg_hash": FWH, "key": TStr, "retry_on_none": TBool}, returns=TObj(),
+    R.contract(B + "read_metadata", prop="C05", modifies=["self._memory_cache.cache", "self._memory_cache.lru_deque", "self._memory_cache.memory_usage", "self._memory_cache.refs"], types={"self": BE, "fn_with_arg_hash": FWH, "key": TStr, "retry_on_none": TBool}, returns=TObj(),
                requires=["COH(self)", "STORE_OK(self)"],
                ensures=["COH(self)", "STORE_SAME(self)",
                         "implies(MK(fn_with_arg_hash, key) not in self._metadata_source.meta, ret is None)",
